@@ -25,6 +25,8 @@ def ops06 (op : String) (a : List String) : Option String :=
       showPy showBool (isEchoOf (unesc g) cf pf))
   | "match.reply", [g, c, e, p] => some (withFrame c fun cf => withFrame e fun ef => withFrame p fun pf =>
       showPy showBool (isReplyOf (unesc g) cf ef pf))
+  | "bind.own", [c, p] => some (withFrame c fun cf => withFrame p fun pf =>
+      showPy (fun f => if f = cf then "cmd" else "pkt") (ownPkt cf pf))
   | _, _ => none
 
 end Driver
